@@ -360,6 +360,89 @@ fn run(v: &Value) -> Result<String, String> {
             }
             Ok(format!("received {} bytes, {frames} whole frames", bytes.len()))
         }
+        "svs_pull_sweep" => {
+            // Bounded stand-in for C09/C10: producers writing n bytes (n around every chunk boundary up to 3 chunks)
+            // and then either finishing or failing; pulled with pull_to_vec / pull_to_file (blocking client) and
+            // pull_to_file_async (async client), with and without zstd. Checks: a clean stream reproduces the bytes
+            // exactly; a failed producer yields an error, leaves the destination as it was (absent or previous
+            // content) and leaves no temp sibling.
+            use repe::value_stream::{Compression, RouterValueStreamExt, StreamOpts};
+            use std::io::Write as _;
+            let chunk: usize = v.get("chunk_bytes").and_then(|x| x.as_u64()).unwrap_or(1024) as usize;
+            let dir = std::env::temp_dir().join(format!("repe-verif-svs-{}", std::process::id()));
+            let _ = std::fs::remove_dir_all(&dir);
+            std::fs::create_dir_all(&dir).unwrap();
+            let mut cases = 0;
+            let rt = tokio::runtime::Builder::new_multi_thread().worker_threads(2).enable_all().build().unwrap();
+            for compression in [Compression::None, Compression::Zstd] {
+                let cname = if matches!(compression, Compression::None) { "none" } else { "zstd" };
+                let router = repe::Router::new().with_writer_stream(
+                    repe::BodyFormat::RawBinary,
+                    move |resource: &str| {
+                        // resource = "<n>:<ok|fail>"
+                        let mut it = resource.split(':');
+                        let n: usize = it.next()?.parse().ok()?;
+                        let fail = it.next()? == "fail";
+                        Some(move |w: &mut dyn std::io::Write| -> std::io::Result<()> {
+                            let data: Vec<u8> = (0..n).map(|i| (i * 7 + 3) as u8).collect();
+                            w.write_all(&data)?;
+                            if fail { Err(std::io::Error::other("producer aborted")) } else { Ok(()) }
+                        })
+                    },
+                    StreamOpts { chunk_bytes: chunk, compression, zstd_level: 3, session_depth: 2 },
+                );
+                let server = repe::Server::new(router);
+                let listener = server.listen("127.0.0.1:0").unwrap();
+                let addr = listener.local_addr().unwrap();
+                std::thread::spawn(move || { let _ = server.serve(listener); });
+                let client = repe::Client::connect(addr).map_err(|e| e.to_string())?;
+                let aclient = rt.block_on(repe::AsyncClient::connect(addr)).map_err(|e| e.to_string())?;
+                let mut sizes = vec![0usize, 1];
+                for k in 1..=3usize { for d in [-1i64, 0, 1] { sizes.push(((k * chunk) as i64 + d) as usize); } }
+                for &n in &sizes {
+                    let expect: Vec<u8> = (0..n).map(|i| (i * 7 + 3) as u8).collect();
+                    for fail in [false, true] {
+                        let res = format!("{n}:{}", if fail { "fail" } else { "ok" });
+                        cases += 1;
+                        // in-memory pull
+                        let got = repe::pull_to_vec(&client, &res);
+                        match (&got, fail) {
+                            (Ok(b), false) if *b == expect => {}
+                            (Err(_), true) => {}
+                            (Ok(b), false) => return Err(format!("[{cname}] pull_to_vec({res}) returned {} bytes that differ from the {} produced", b.len(), n)),
+                            (Ok(b), true) => return Err(format!("[{cname}] pull_to_vec({res}) returned Ok({} bytes) although the producer failed", b.len())),
+                            (Err(e), false) => return Err(format!("[{cname}] pull_to_vec({res}) failed on a clean stream: {e}")),
+                        }
+                        for (which, pre_existing) in [("sync", false), ("sync", true), ("async", false), ("async", true)] {
+                            let path = dir.join(format!("out-{cname}-{n}-{fail}-{which}-{pre_existing}.bin"));
+                            let part = { let mut s = path.file_name().unwrap().to_os_string(); s.push(".svspart"); path.with_file_name(s) };
+                            if pre_existing { std::fs::File::create(&path).unwrap().write_all(b"previous").unwrap(); }
+                            let r: Result<(), String> = if which == "sync" {
+                                repe::pull_to_file(&client, &res, &path).map_err(|e| e.to_string())
+                            } else {
+                                rt.block_on(repe::pull_to_file_async(&aclient, &res, &path)).map(|_| ()).map_err(|e| e.to_string())
+                            };
+                            if fail {
+                                if r.is_ok() { return Err(format!("[{cname}] {which} pull_to_file({res}) returned Ok although the producer failed")); }
+                                let now = std::fs::read(&path).ok();
+                                let want: Option<Vec<u8>> = if pre_existing { Some(b"previous".to_vec()) } else { None };
+                                if now != want {
+                                    return Err(format!("[{cname}] {which} pull_to_file({res}) failed but the destination changed: {:?} bytes now, expected {:?}",
+                                        now.map(|b| b.len()), want.map(|b| b.len())));
+                                }
+                            } else {
+                                if let Err(e) = r { return Err(format!("[{cname}] {which} pull_to_file({res}) failed on a clean stream: {e}")); }
+                                let now = std::fs::read(&path).map_err(|e| e.to_string())?;
+                                if now != expect { return Err(format!("[{cname}] {which} pull_to_file({res}) published {} bytes that differ from the {} produced", now.len(), n)); }
+                            }
+                            if part.exists() { return Err(format!("[{cname}] {which} pull_to_file({res}) left a temp file behind")); }
+                        }
+                    }
+                }
+            }
+            let _ = std::fs::remove_dir_all(&dir);
+            Ok(format!("{cases} producer cases x 5 pullers held"))
+        }
         other => panic!("unknown replay entry `{other}`"),
     }
 }
